@@ -114,7 +114,20 @@ fn gen_layout(rng: &mut Rng, thorough: bool, small: bool) -> Layout {
                else { *rng.pick(&[1u64, 4095, 4096, 4097, 20000, 65536, 100_000, 262_144, MIB + 123, if thorough { 4 * MIB } else { 2 * MIB }]) };
     let nb = size.div_ceil(4096);
     let mut writes = Vec::new();
-    let kind = match rng.below(8) {
+    let kind = match rng.below(10) {
+        8 | 9 => {
+            // ONE data region that contains whole 64 KiB-aligned chunks of WRITTEN zeros followed by non-zero bytes (zero-filled
+            // pages of a VM image or database inside allocated extents): a receiver that streams a region in chunks and
+            // treats all-zero chunks specially must still place what follows them (seeded change C14c)
+            let k = 65536u64; let lead = *rng.pick(&[0u64, 1, 2]); let zeros = *rng.pick(&[1u64, 2, 3]); let tail = rng.range(1, 70000);
+            let start = *rng.pick(&[0u64, k, 4096]);
+            let mut data: Vec<u8> = rng.bytes((lead * k) as usize, 255).iter().map(|b| b + 1).collect();
+            data.extend(std::iter::repeat(0u8).take((zeros * k) as usize));
+            data.extend(rng.bytes(tail as usize, 255).iter().map(|b| b + 1));
+            let total = start + data.len() as u64 + *rng.pick(&[0u64, 4096, 100_000]);
+            writes.push((start, data));
+            return Layout { size: total, writes, kind: "zero-chunks-inside-region" };
+        }
         0 => "all-hole",
         1 => { let l = rng.range(1, size.min(9000)); writes.push((size - l, rng.bytes(l as usize, 255).iter().map(|b| b + 1).collect())); "leading-hole" }
         2 => { let l = rng.range(1, size.min(9000)); writes.push((0, rng.bytes(l as usize, 255).iter().map(|b| b + 1).collect())); "trailing-hole" }
